@@ -365,6 +365,20 @@ def main():
     extra = []
     if tier == 'thorough':
         extra = registry.thorough_extra(prop, seed, results)
+    if pdef.get('standin_always') and all(r.status == 'ok' for r in results):
+        # functions of this property that are out of the verifier's reach: bounded stand-in on every run (labelled, never counted as proved)
+        try:
+            import searcher
+            fams = pdef['standin_always']
+            old = searcher.FAMILIES.get(prop)
+            searcher.FAMILIES[prop] = fams
+            ssum, fi = searcher.search(prop, seed, tier, REPO, budget_ms=(20000 if tier == 'thorough' else 6000))
+            if old is not None:
+                searcher.FAMILIES[prop] = old
+            extra = [x for x in extra if not x.get('kind', '').startswith('searcher cross-check')]
+            extra.append(dict(kind='bounded stand-in for the functions not under contract (NOT proof)', summary=ssum, failing_input=fi, standin_violation=fi is not None))
+        except Exception as ex:
+            extra.append(dict(kind='bounded stand-in', error=repr(ex), undecided='bounded stand-in could not run: %r' % (ex,)))
     return verdict(prop, tier, seed, pdef, results, extra, time.time() - t0)
 
 
@@ -401,9 +415,12 @@ def verdict(prop, tier, seed, pdef, results, extra, wall):
                 violations.append((ur, e))
         for g, v in list(groups.items())[:3]:
             samples.append(dict(obligation_group=g, discharged=bool(v.get('success')), time_ms=v.get('time'), rlimit=v.get('rlimit')))
+    standin_fi = None
     for x in extra:
         if x.get('undecided'):
             undecided.append(x['undecided'])
+        if x.get('standin_violation'):
+            standin_fi = x
     trusted_base = sorted(trusted | set(registry.GLOBAL_TRUSTED))
     assumptions = list(pdef.get('assumptions', [])) + registry.GLOBAL_ASSUMPTIONS
     ev = dict(
@@ -426,6 +443,15 @@ def verdict(prop, tier, seed, pdef, results, extra, wall):
     )
     rc = 0
     lines = []
+    if standin_fi is not None and not violations:
+        path = os.path.join(VERIF, 'replay', '%s-bounded-stand-in.json' % prop)
+        json.dump(dict(property_id=prop, obligation='bounded stand-in for the functions of this property that are not under contract',
+                       failed_obligations=[], failing_input=standin_fi['failing_input'], searcher=standin_fi['summary'],
+                       note='all verifier obligations are discharged; the violation was found by the bounded stand-in on the real code'), open(path, 'w'), indent=1)
+        ev['violations'] = 1
+        lines.append('VIOLATION property=%s replay=%s' % (prop, path))
+        lines.append('NOTE property=%s found by the bounded stand-in (functions out of the verifier\'s reach): %s' % (prop, standin_fi['failing_input']['disagreement'][:300]))
+        rc = 1
     if os.environ.get('VERIF_DEV'):
         for ur, e in violations:
             print('--- %s\n%s' % (e['obligation'], e['text']))
